@@ -248,8 +248,21 @@ static int v_futimens(int fd, const struct timespec ts[2]) { int i = cur, e = sy
 static int v_isatty(int fd) { return fd == STDIN_FILENO ? (IN.stdin_tty & 1) : fd == STDOUT_FILENO ? (IN.stdout_tty & 1) : 0; }
 static long v_sysconf(int name) { (void)name; return 4; }
 static char *env_val[3];
+/* strtok(): C standard semantics (leading separators skipped, runs of separators are one break) */
+static char *tok_next;
+static char *v_strtok(char *str, const char *sep)
+{
+  char *p = str ? str : tok_next, *start;
+  if (!p) return 0;
+  while (*p && strchr(sep, *p)) p++;
+  if (!*p) { tok_next = 0; return 0; }
+  start = p;
+  while (*p && !strchr(sep, *p)) p++;
+  if (*p) { *p = 0; tok_next = p + 1; } else tok_next = 0;
+  return start;
+}
 static char *v_getenv(const char *name) { return !strcmp(name, "LBZIP2") ? env_val[0] : !strcmp(name, "BZIP2") ? env_val[1] : !strcmp(name, "BZIP") ? env_val[2] : 0; }
-void v_exit(int code) { exit_code = code; ended = true; end_of_process(); CUT(); }
+void v_exit(int code) { exit_code = code; ended = true; if (H == 99) { WITNESS("options_refused"); PROP(code == 1, "refused options exit with status 1"); CUT(); } end_of_process(); CUT(); }
 
 /* stdio of main.c goes to the model (defined here so that the harness code above keeps the real printf) */
 #define fprintf v_fprintf
@@ -273,6 +286,12 @@ void v_exit(int code) { exit_code = code; ended = true; end_of_process(); CUT();
 #define isatty v_isatty
 #define sysconf v_sysconf
 #define getenv v_getenv
+#define strtok v_strtok
+#ifdef OPTS_ONLY
+/* -n/-m are not in the option vocabulary of the C22 query: number parsing is never reached, keep it cheap for symex */
+static long v_strtol(const char *s, char **e, int b) { (void)b; *e = (char *)s; return 1; }
+#define strtol v_strtol
+#endif
 #define main lbzip2_main
 
 /* src/signals.c is compiled as its own translation unit (extra_src) against osmodel_sig.h */
@@ -490,6 +509,124 @@ void h_main_filter(void)
 #endif
   lbzip2_main(argc, argv);
   PROP(ended, "main() ends the process through _exit() or a signal");
+}
+
+#ifdef OPTS_ONLY
+/* option-parsing query: signals.c is not linked; a fatal error ends the path at once */
+void setup_signals(void) {}
+void cli(void) {}
+void sti(void) {}
+void halt(void) {}
+void xraise(int sig) { (void)sig; }
+void bailout(void) { WITNESS("options_refused"); CUT(); }
+#endif
+
+/* ------------------------------------------------------------------ C22: invocation name, option sources, option parsing */
+#ifndef NTOK
+#define NTOK 2                 /* command-line tokens */
+#endif
+struct tokdef { const char *text; int eff; };
+enum { E_NONE, E_D, E_Z, E_C, E_T, E_K, E_F, E_1, E_9, E_5, E_S, E_U, E_DC, E_ZK, E_TK, E_KD };
+static const struct tokdef vocab[] = {
+  { "-d", E_D }, { "-z", E_Z }, { "-c", E_C }, { "-t", E_T }, { "-k", E_K }, { "-f", E_F }, { "-1", E_1 }, { "-9", E_9 }, { "-5", E_5 },
+  { "-s", E_S }, { "-u", E_U }, { "-q", E_NONE }, { "-v", E_NONE },
+  { "--decompress", E_D }, { "--compress", E_Z }, { "--stdout", E_C }, { "--test", E_T }, { "--keep", E_K }, { "--force", E_F },
+  { "--fast", E_1 }, { "--best", E_9 }, { "--small", E_S }, { "--sequential", E_U }, { "--verbose", E_NONE },
+  { "--quiet", E_NONE }, { "--repetitive-fast", E_NONE }, { "--repetitive-best", E_NONE }, { "--exponential", E_NONE },
+  { "-dc", E_DC }, { "-zk", E_ZK }, { "-tk", E_TK }, { "-kd", E_KD },
+};
+#define NVOCAB (sizeof vocab / sizeof vocab[0])
+static const char *const pnames[] = { "lbzip2", "bzip2", "bunzip2", "lbunzip2", "bzcat", "lbzcat", "foo" };
+/* environment values: writable (strtok), with single, double, leading and trailing separators */
+static char env_txt[][16] = { "-d", "-z", "-k", "-c", "-1", "-d -c", "-z  -k", " -d", "-t\t", "-k \t-d", "--small", "-9 -5" };
+static const int env_eff[][2] = { { E_D, 0 }, { E_Z, 0 }, { E_K, 0 }, { E_C, 0 }, { E_1, 0 }, { E_D, E_C }, { E_Z, E_K }, { E_D, 0 }, { E_T, 0 }, { E_K, E_D }, { E_S, 0 }, { E_9, E_5 } };
+#define NENV (sizeof env_txt / sizeof env_txt[0])
+
+struct optstate { bool decompress, keep, force, ultra, conflict; int outmode; unsigned level; };
+static void ref_apply1(struct optstate *o, int e)
+{
+  if (o->conflict) return;
+  switch (e) {
+  case E_D: o->decompress = true; if (o->outmode == OM_DISCARD) o->outmode = OM_REGF; break;
+  case E_Z: o->decompress = false; if (o->outmode == OM_DISCARD) o->outmode = OM_REGF; break;
+  case E_C: if (o->outmode == OM_DISCARD) o->conflict = true; else o->outmode = OM_STDOUT; break;
+  case E_T: if (o->outmode == OM_STDOUT) o->conflict = true; else { o->outmode = OM_DISCARD; o->decompress = true; } break;
+  case E_K: o->keep = true; break;
+  case E_F: o->force = true; break;
+  case E_1: o->level = 1; break;
+  case E_9: o->level = 9; break;
+  case E_5: o->level = 5; break;
+  case E_U: o->ultra = true; break;
+  default: break;                      /* -s/--small and the compatibility options change nothing */
+  }
+}
+static void ref_apply(struct optstate *o, int e)
+{
+  if (e == E_DC) { ref_apply1(o, E_D); ref_apply1(o, E_C); }
+  else if (e == E_ZK) { ref_apply1(o, E_Z); ref_apply1(o, E_K); }
+  else if (e == E_TK) { ref_apply1(o, E_T); ref_apply1(o, E_K); }
+  else if (e == E_KD) { ref_apply1(o, E_K); ref_apply1(o, E_D); }
+  else ref_apply1(o, e);
+}
+
+static bool opts_exited;
+struct opt_in { unsigned pname, ntok, tok[NTOK], envsel[3]; };
+
+void h_opts(void)
+{
+  LOAD_INPUTS();
+  /* the option inputs are packed into otherwise unused input fields */
+  unsigned pn = IN.op[0].in_uid % 7u, ntok = IN.op[0].in_atime % (NTOK + 1u);
+  unsigned tk[NTOK], ev3[3], i;
+  struct optstate R;
+  struct arg *operands = 0;
+  char *argv[NTOK + 2];
+  env_val[0] = env_val[1] = env_val[2] = 0; sysk = 0;
+  { unsigned k; for (k = 0; k < NSYS; k++) ASSUME(IN.fail[k] >= 0 && IN.fail[k] < 200); }
+  filter_mode = true; H = 99;
+  ASSUME((IN.stdin_tty & 1) == 0 && (IN.stdout_tty & 1) == 0);
+  for (i = 0; i < NTOK; i++) { tk[i] = IN.fail[i] < 0 ? 0 : (unsigned)IN.fail[i]; ASSUME(tk[i] < NVOCAB); }
+  for (i = 0; i < 3; i++) { ev3[i] = (unsigned)IN.fail[NTOK + i]; ASSUME(ev3[i] <= NENV); env_val[i] = ev3[i] ? (char *)env_txt[ev3[i] - 1] : (char *)0; }
+#ifdef ONE_ENV                          /* at most one environment variable set (keeps the query small) */
+  ASSUME((ev3[0] != 0) + (ev3[1] != 0) + (ev3[2] != 0) <= 1);
+#endif
+  argv[0] = (char *)pnames[pn];
+  for (i = 0; i < NTOK; i++) argv[1 + i] = (char *)vocab[tk[i]].text;
+  argv[1 + ntok] = 0;
+
+  /* reference: documented rules */
+  R.decompress = (pn == 2 || pn == 3 || pn == 4 || pn == 5); R.outmode = (pn == 4 || pn == 5) ? OM_STDOUT : OM_REGF;
+  R.keep = R.force = R.ultra = R.conflict = false; R.level = 9;
+  for (i = 0; i < 3; i++) if (ev3[i]) { ref_apply(&R, env_eff[ev3[i] - 1][0]); if (env_eff[ev3[i] - 1][1]) ref_apply(&R, env_eff[ev3[i] - 1][1]); }
+  for (i = 0; i < NTOK; i++) if (i < ntok) ref_apply(&R, vocab[tk[i]].eff);
+  if (!R.conflict && R.outmode == OM_REGF) R.outmode = OM_STDOUT;        /* no FILE operands: filter */
+
+  pname = argv[0];
+  decompress = false; outmode = OM_REGF; bs100k = 9; keep = force = small = ultra = verbose = false; num_worker = 0;
+  opts_exited = false;
+#ifdef REPLAY
+  if (!setjmp(cut_jmp))
+#endif
+  {
+    opts_setup(&operands, 1 + ntok, argv);
+    /* reached only when option processing did not end the process */
+    if (pn >= 2 && pn <= 5) WITNESS("decompressing_name");
+    if (ev3[0] && ev3[2]) WITNESS("two_environment_variables");
+    if (ntok == NTOK) WITNESS("all_tokens_used");
+    PROP(!R.conflict, "-c together with -t is refused");
+    PROP(operands == 0, "option tokens never become FILE operands");
+    PROP(decompress == R.decompress, "mode: invocation name, then -d/-z from environment and command line, last one wins (C22)");
+    PROP(outmode == R.outmode, "output destination follows the documented rules (C22)");
+    PROP(bs100k == R.level && keep == R.keep && force == R.force && ultra == R.ultra, "level/-k/-f/-u follow the documented rules (C22)");
+    PROP(num_worker == 4, "worker count defaults to the number of online processors");
+    return;
+  }
+}
+
+void v_exit_opts_check(int code)
+{
+  /* called from v_exit() when h_opts runs */
+  (void)code;
 }
 
 HARNESS_MAIN(REPLAY_ENTRY)
